@@ -55,9 +55,10 @@ def classify_exc(e) -> str:
 _NOTE = re.compile(r"expected [\u2018'](.+?)[\u2019'](?: \{aka [^}]*\})? but argument is of type [\u2018'](.+?)[\u2019']")
 
 
-def _arg_mismatch_class(out: str) -> str:
+def _arg_mismatch_class(note: str) -> str:
     """class of an `incompatible type for argument` error from gcc's note `expected 'X' but argument is of type 'Y'`"""
-    for m in _NOTE.finditer(out):
+    m = _NOTE.search(note)
+    if m:
         exp, got = m.group(1), m.group(2)
         ew, gw = re.match(r"struct (exo_win_\w+)$", exp), re.match(r"struct (exo_win_\w+)$", got)
         if ew and gw:
@@ -73,16 +74,20 @@ def _arg_mismatch_class(out: str) -> str:
     return "incompatible-arg"
 
 
-def classify_gcc_line(l: str, out: str) -> str:
+def classify_gcc_line(l: str, following: str) -> str:
+    """class of one diagnostic line; `following` = the lines up to the next error/warning (notes, excerpts)"""
     if "error:" not in l and "warning:" not in l:
         return ""
     msg = (l.split("error:")[-1] if "error:" in l else l.split("warning:")[-1]).strip()
     if "incompatible type for argument" in msg:
-        return _arg_mismatch_class(out)
+        return _arg_mismatch_class(following)
     if "array size missing" in msg or "storage size of" in msg:
         return "unsized-array"
     if "assignment to expression with array type" in msg or ("incompatible types when assigning" in msg and "*" in msg):
         return "unsized-array-use"
+    if "decrement of read-only" in msg or "increment of read-only" in msg or "lvalue required as decrement" in msg \
+            or "lvalue required as increment" in msg:
+        return "decrement-operator"
     if "read-only" in msg:
         return "const-window-write"
     if "incompatible-pointer-types" in msg or "incompatible pointer type" in msg:
@@ -93,6 +98,8 @@ def classify_gcc_line(l: str, out: str) -> str:
         return "implicit-decl"
     if "makes integer from pointer" in msg or "makes pointer from integer" in msg:
         return "int-conversion"
+    if "may be undefined" in msg:
+        return "sequence-point"
     if "warning:" in l and "error:" not in l:
         if re.search(r"unused|set but not used|Wunused", msg):
             return ""  # -Wall noise that is not a validity problem
@@ -103,12 +110,35 @@ def classify_gcc_line(l: str, out: str) -> str:
 def classify_gcc(out: str) -> list:
     """classes of all diagnostics of one case, in order of appearance, without duplicates"""
     res = []
-    for l in out.splitlines():
-        c = classify_gcc_line(l, out)
+    lines = out.splitlines()
+    for k, l in enumerate(lines):
+        if "error:" not in l and "warning:" not in l:
+            continue
+        foll = []
+        for l2 in lines[k + 1:]:
+            if "error:" in l2 or "warning:" in l2:
+                break
+            foll.append(l2)
+        c = classify_gcc_line(l, "\n".join(foll))
         if c and c not in res:
             res.append(c)
     if "unsized-array" in res and "unsized-array-use" in res:
         res.remove("unsized-array-use")
+    return res
+
+
+def lint_c(source: str) -> list:
+    """textual checks on the emitted C that a compiler does not diagnose: exo has no increment / decrement, so a
+    `--` or `++` token in the text is two unary operators glued together (`-(-(x))` printed as `--x`)"""
+    res = []
+    for l in source.splitlines():
+        t = l.strip()
+        if t.startswith("//") or t.startswith("#") or t.startswith("*"):
+            continue
+        t = re.sub(r"\b(\w+)\+\+\)", r"\1)", t)  # the loop header `i++)`
+        if re.search(r"--|\+\+", t):
+            res.append("decrement-operator")
+            break
     return res
 
 
@@ -310,6 +340,10 @@ def main():
             chunk = togcc[k:k + B]
             res = run_gcc_batch(job["workdir"], chunk, "c15.h", header_every=job.get("header_every", 1), batch=B)
             for cid, r in res.items():
+                for extra in lint_c(texts[cid][0]):
+                    if extra not in r["classes"]:
+                        r["classes"].append(extra)
+                        r["out"] += "\n[lint] the C text contains a `--` / `++` token (double unary operator printed without separation)"
                 byid[cid]["gcc"] = r
                 done += 1
                 if r["classes"]:
